@@ -272,6 +272,27 @@ pub fn teardown(rng: &mut Rng) -> Case {
 }
 
 pub fn teardown_epilogue(g: &mut Gen) {
+    if g.rng.chance(1, 5) && g.world.phase() == crate::world::Phase::Running {
+        // the transport fails while the context writes one last request: run() returns the
+        // error, and the caller has not been polled again when the context is dropped - it is
+        // "still pending" at the drop whatever the context had meant to tell it
+        let after = if g.rng.coin() { 0 } else { g.rng.urange(1, 12) };
+        g.push(Step::Fault(FaultKind::WriteErr { after }));
+        let id = g.next_op_id();
+        let spec = match g.rng.below(4) {
+            0 => OpSpec::Disconnect(DisconnectSpec::default()),
+            1 => g.new_op_spec(1, id),
+            2 => OpSpec::Ping,
+            _ => g.new_op_spec(0, id),
+        };
+        let handle = g.rng.usize_below(g.cfg.handles.max(1));
+        g.push(Step::Op { id, handle, spec });
+        g.push(Step::Poll(TaskRef::Op(id)));
+        g.push(Step::Poll(TaskRef::Ctx));
+        if g.rng.chance(1, 4) {
+            g.push(Step::Poll(TaskRef::Ctx));
+        }
+    }
     if g.rng.chance(1, 4) {
         // a disconnect() that is submitted (or not even polled) but not yet served at the drop
         let id = g.next_op_id();
@@ -313,6 +334,13 @@ pub fn cancel(rng: &mut Rng) -> Case {
     if cfg.inbound {
         cfg.w_ops[3] += 2;
         cfg.inbound_multi_ids = rng.coin();
+        if rng.chance(1, 3) {
+            // re-deliveries of unreleased QoS 2 messages: a dropped stream among the addressees
+            // must not make the survivors see the message twice
+            cfg.redeliver = true;
+            cfg.inbound_unknown_ids = false;
+            cfg.inbound_absent_ids = false;
+        }
     }
     cfg.receive_max = if rng.chance(2, 3) { Some(rng.range(1, 6) as u16) } else { None };
     cfg.all_reasons = true;
@@ -820,6 +848,9 @@ pub fn maxpacket(rng: &mut Rng) -> Case {
     // server allows: requests around that size must all be written
     let own: Option<u32> = if m.map(|m| m > 400).unwrap_or(true) && rng.chance(1, 2) { Some(rng.range(100, 250) as u32) } else { None };
     cfg.own_max_packet = own;
+    // one run in four: the server still has a session of this client (Session Present = 1 in
+    // the very first CONNACK) - the announced limit counts all the same
+    cfg.session_present_first = rng.chance(1, 4);
     let r = cfg.receive_max;
     let n_ops = rng.urange(1, 9);
     let mut g = Gen::new(cfg, rng);
@@ -839,7 +870,8 @@ pub fn maxpacket(rng: &mut Rng) -> Case {
             g.settle();
         }
         let props = g.connack_props();
-        g.broker(BrokerPkt::Connack { session_present: false, reason: 0, props });
+        let session_present = g.cfg.session_present_first;
+        g.broker(BrokerPkt::Connack { session_present, reason: 0, props });
         g.push(Step::Deliver { n: usize::MAX });
         g.settle();
     } else {
@@ -1012,7 +1044,7 @@ pub fn ids_long(rng: &mut Rng, ops: u32) -> Case {
         Step::Settle { seed: 0 },
         Step::Broker { pkt: BrokerPkt::Connack { session_present: false, reason: 0, props: Props::new() }, chunks: Chunks::Whole, hold: false },
         Step::Settle { seed: 1 },
-        Step::IdHistory { seed: rng.next_u64(), ops, clones, max_outstanding: *rng.pick(&[0usize, 1, 3, 10, 50]) },
+        Step::IdHistory { seed: rng.next_u64(), ops, clones, max_outstanding: *rng.pick(&[0usize, 1, 3, 10, 50]), pin: rng.coin() },
     ];
     Case { scenario: Scenario { config, steps }, aux: None, profile: "ids/long-history", gen_hash: None, systematic: false }
 }
